@@ -18,6 +18,14 @@
 //!   R  Message reader: source schedules x consumer patterns (binary and armored)
 //!   K  certificates / messages with armor headers through the composed entry points
 //!   F  fault injection into all of the above (Other once / sticky, Interrupted once)
+//!   U  inputs the library REFUSES: the Ok/Err class must not depend on the schedule either. Every short
+//!      string over {CR, LF, 'a', UTF-8 lead / continuation octets} through the Utf8 builder under every
+//!      composition; long texts with one illegal spot at the chunk edges (also: damaged armors in D,
+//!      arbitrary base64 texts in S, truncated / trailing-data messages in M)
+//!   X  MIXED consumer schedules on one reader: read(n), zero-length reads, fill_buf + consume(0 / k / all),
+//!      then read_to_end / read_to_string / a loop of mixed steps, optionally asking again after the end:
+//!      message reader (all configurations, binary and armored, sizes around the 8192-octet windows),
+//!      stream encryptors / decryptors, Dearmor, base64 stack, NormalizedReader
 
 use std::cell::RefCell;
 use std::io::{self, BufRead, Read, Write};
@@ -339,6 +347,12 @@ fn first_diff(a: &[u8], b: &[u8]) -> usize {
 
 /// Differential judgement of a clean (fault free) run against R0.
 fn judge(ctx: &mut Ctx, comp: &str, r0: &Out, got: &Out, what: &dyn Fn() -> String, replay: &dyn Fn() -> Value) -> bool {
+    judge_as(ctx, comp, "sched", r0, got, what, replay)
+}
+
+/// `oracle` names the schedule dimension that was varied: "sched" (source / sink / homogeneous consumer
+/// schedules) or "mixed" (several access styles on one reader).
+fn judge_as(ctx: &mut Ctx, comp: &str, oracle: &str, r0: &Out, got: &Out, what: &dyn Fn() -> String, replay: &dyn Fn() -> Value) -> bool {
     if r0.same(got) {
         return true;
     }
@@ -357,7 +371,7 @@ fn judge(ctx: &mut Ctx, comp: &str, r0: &Out, got: &Out, what: &dyn Fn() -> Stri
         "meta-differs".to_string()
     };
     ctx.violation(
-        format!("C09/{comp}/sched/{sym}"),
+        format!("C09/{comp}/{oracle}/{sym}"),
         format!(
             "{}: R0 = {}, this run = {}; first difference at byte {}",
             what(),
@@ -632,6 +646,423 @@ fn consumers_buf(thorough: bool) -> Vec<Consume> {
     v
 }
 
+// ------------------------------------------------------------------------------------------
+// mixed consumer schedules: ONE reader is driven through several access styles in one session
+// (`read(n)`, zero-length reads, `fill_buf`/`consume(k)` incl. a pure peek, then `read_to_end` /
+// `read_to_string` / a loop of mixed steps). `shim::Consume` only has homogeneous patterns.
+
+#[derive(Clone, Debug, PartialEq, Eq, Hash)]
+enum Op {
+    /// `read` into a buffer of n octets; n = 0 is a zero-length read (returns Ok(0), not an end of stream)
+    Read(usize),
+    /// `fill_buf`, take min(k, available) octets and `consume` exactly those (k = 0: a peek, `consume(0)`)
+    Fill(usize),
+}
+
+#[derive(Clone, Debug, PartialEq, Eq, Hash)]
+enum Fin {
+    /// `read_to_end`
+    ToEnd,
+    /// `read_to_string` (only generated for payloads that are valid UTF-8; if the prefix stopped inside a
+    /// multi-octet character the driver first completes that character with one-octet reads)
+    ToString,
+    /// cycle through the steps until the end of the stream
+    Ops(Vec<Op>),
+}
+
+#[derive(Clone, Debug, PartialEq, Eq, Hash)]
+struct Mix {
+    /// prefix steps
+    pre: Vec<Op>,
+    /// the prefix is cycled until at least this many octets were released (0: it is run once)
+    until: usize,
+    fin: Fin,
+    /// after the end of the stream was reported: one more `read`, `fill_buf` and `read_to_end`; they must
+    /// release nothing and must not fail (a consumer that asks once more gets the same result)
+    probe_after_end: bool,
+}
+
+impl Mix {
+    fn new(pre: &[Op], until: usize, fin: Fin) -> Self {
+        Mix { pre: pre.to_vec(), until, fin, probe_after_end: false }
+    }
+    fn probe(mut self) -> Self {
+        self.probe_after_end = true;
+        self
+    }
+    fn name(&self) -> String {
+        fn ops(v: &[Op]) -> String {
+            v.iter()
+                .map(|o| match o {
+                    Op::Read(n) => format!("r{n}"),
+                    Op::Fill(usize::MAX) => "fall".to_string(),
+                    Op::Fill(k) => format!("f{k}"),
+                })
+                .collect::<Vec<_>>()
+                .join(",")
+        }
+        let fin = match &self.fin {
+            Fin::ToEnd => "read_to_end".to_string(),
+            Fin::ToString => "read_to_string".to_string(),
+            Fin::Ops(v) => format!("loop[{}]", ops(v)),
+        };
+        let until = if self.until > 0 { format!("*until{}", self.until) } else { String::new() };
+        format!("[{}]{until}>{fin}{}", ops(&self.pre), if self.probe_after_end { ">probe" } else { "" })
+    }
+    fn fin_class(&self) -> &'static str {
+        match self.fin {
+            Fin::ToEnd => "read_to_end",
+            Fin::ToString => "read_to_string",
+            Fin::Ops(_) => "loop",
+        }
+    }
+    /// access styles used before the final step (coverage evidence)
+    fn pre_class(&self) -> &'static str {
+        let r = self.pre.iter().any(|o| matches!(o, Op::Read(n) if *n > 0));
+        let z = self.pre.iter().any(|o| matches!(o, Op::Read(0)));
+        let p = self.pre.iter().any(|o| matches!(o, Op::Fill(0)));
+        let f = self.pre.iter().any(|o| matches!(o, Op::Fill(k) if *k > 0));
+        match (r, f, p, z) {
+            (false, false, false, false) => "none",
+            (true, false, false, false) => "read",
+            (false, true, false, false) => "fill-consume",
+            (false, false, true, false) => "peek",
+            (false, false, false, true) => "zero-read",
+            _ => "several",
+        }
+    }
+}
+
+/// The mixed schedules for a reader whose internal window is `b` octets (8192 for the message reader layers
+/// and the decryptors). `text`: the payload is valid UTF-8, so `read_to_string` is a legitimate consumer.
+fn mixes(b: usize, text: bool, thorough: bool) -> Vec<Mix> {
+    use Op::{Fill, Read};
+    let all = usize::MAX;
+    let mut v = vec![
+        // one access of another style, then read_to_end
+        Mix::new(&[Read(0)], 0, Fin::ToEnd),
+        Mix::new(&[Read(1)], 0, Fin::ToEnd),
+        Mix::new(&[Read(7)], 0, Fin::ToEnd),
+        Mix::new(&[Read(b - 1)], 0, Fin::ToEnd),
+        Mix::new(&[Read(b)], 0, Fin::ToEnd),
+        Mix::new(&[Read(b + 1)], 0, Fin::ToEnd),
+        Mix::new(&[Fill(0)], 0, Fin::ToEnd),
+        Mix::new(&[Fill(0), Fill(0)], 0, Fin::ToEnd).probe(),
+        Mix::new(&[Fill(1)], 0, Fin::ToEnd),
+        Mix::new(&[Fill(b - 1)], 0, Fin::ToEnd),
+        Mix::new(&[Fill(all)], 0, Fin::ToEnd),
+        Mix::new(&[Read(5), Fill(0)], 0, Fin::ToEnd),
+        Mix::new(&[Fill(0), Read(5)], 0, Fin::ToEnd),
+        Mix::new(&[Fill(3), Read(0), Read(4)], 0, Fin::ToEnd),
+        // read_to_end after a partial consumption that crosses / stops exactly at the window edges
+        Mix::new(&[Fill(100)], b + 1, Fin::ToEnd),
+        Mix::new(&[Read(b / 2)], b, Fin::ToEnd),
+        Mix::new(&[Read(3000)], 2 * b + 1, Fin::ToEnd),
+        Mix::new(&[Fill(all), Read(1)], b + 2, Fin::ToEnd).probe(),
+        Mix::new(&[Fill(all)], 2 * b, Fin::ToEnd),
+        // loops that interleave zero-length reads, peeks, reads and fill_buf/consume
+        Mix::new(&[], 0, Fin::Ops(vec![Read(0), Read(7)])),
+        Mix::new(&[], 0, Fin::Ops(vec![Read(0), Read(b), Read(0)])).probe(),
+        Mix::new(&[], 0, Fin::Ops(vec![Fill(0), Read(3), Fill(2)])),
+        Mix::new(&[], 0, Fin::Ops(vec![Read(0), Fill(0), Fill(all)])),
+        Mix::new(&[Read(b + 1)], 0, Fin::Ops(vec![Fill(5), Read(b - 1)])),
+        Mix::new(&[], 0, Fin::ToEnd).probe(),
+    ];
+    if text {
+        v.extend([
+            Mix::new(&[], 0, Fin::ToString),
+            Mix::new(&[Read(1)], 0, Fin::ToString),
+            Mix::new(&[Read(0), Fill(0)], 0, Fin::ToString),
+            Mix::new(&[Fill(5)], 0, Fin::ToString),
+            Mix::new(&[Read(b)], 0, Fin::ToString),
+            Mix::new(&[Fill(100)], b + 1, Fin::ToString).probe(),
+        ]);
+    }
+    if thorough {
+        v.extend([
+            Mix::new(&[Read(2)], 0, Fin::ToEnd),
+            Mix::new(&[Read(b / 2)], 0, Fin::ToEnd),
+            Mix::new(&[Read(2 * b)], 0, Fin::ToEnd),
+            Mix::new(&[Fill(b)], 0, Fin::ToEnd),
+            Mix::new(&[Fill(b / 2), Fill(0)], 0, Fin::ToEnd),
+            Mix::new(&[Read(1)], b - 1, Fin::ToEnd),
+            Mix::new(&[Fill(1)], 600, Fin::ToEnd),
+            Mix::new(&[Read(b), Fill(0)], 3 * b, Fin::ToEnd),
+            Mix::new(&[Fill(all), Fill(0), Read(0)], 2 * b, Fin::ToEnd),
+            Mix::new(&[Read(b - 1)], 0, Fin::Ops(vec![Fill(all)])),
+            Mix::new(&[Fill(1)], 0, Fin::Ops(vec![Read(b)])),
+            Mix::new(&[], 0, Fin::Ops(vec![Read(1), Fill(0), Fill(b - 2), Read(0)])),
+        ]);
+        if text {
+            v.extend([Mix::new(&[Read(b - 1)], 0, Fin::ToString), Mix::new(&[Fill(all)], 0, Fin::ToString), Mix::new(&[Read(3)], 2 * b, Fin::ToString)]);
+        }
+    }
+    v
+}
+
+/// Mixed schedules for small scopes (inputs of a few octets): every step size is 0, 1 or 2.
+fn small_mixes() -> Vec<Mix> {
+    use Op::{Fill, Read};
+    vec![
+        Mix::new(&[Read(0)], 0, Fin::ToEnd),
+        Mix::new(&[Read(1)], 0, Fin::ToEnd).probe(),
+        Mix::new(&[Read(2)], 0, Fin::ToEnd),
+        Mix::new(&[Fill(0)], 0, Fin::ToEnd),
+        Mix::new(&[Fill(1)], 0, Fin::ToEnd),
+        Mix::new(&[Read(1), Fill(0), Fill(1)], 0, Fin::ToEnd),
+        Mix::new(&[Read(1)], 3, Fin::ToEnd),
+        Mix::new(&[], 0, Fin::Ops(vec![Read(0), Read(1)])).probe(),
+        Mix::new(&[], 0, Fin::Ops(vec![Fill(0), Fill(1), Read(2)])),
+    ]
+}
+
+/// What the driver needs from a reader. `BufPort` = a real `BufRead`; `ReadPort` = a plain `Read`, for
+/// which a `Fill(k)` step becomes a `read` of k octets (k = 0: a zero-length read).
+trait Port {
+    fn rd(&mut self, buf: &mut [u8]) -> io::Result<usize>;
+    /// `None`: the reader reported the end of the stream
+    fn fill_take(&mut self, k: usize, out: &mut Vec<u8>) -> io::Result<Option<usize>>;
+    fn to_end(&mut self, out: &mut Vec<u8>) -> io::Result<usize>;
+    fn to_string(&mut self, out: &mut String) -> io::Result<usize>;
+}
+
+struct BufPort<'a, R: BufRead + ?Sized>(&'a mut R);
+struct ReadPort<'a, R: Read + ?Sized>(&'a mut R);
+
+impl<R: BufRead + ?Sized> Port for BufPort<'_, R> {
+    fn rd(&mut self, buf: &mut [u8]) -> io::Result<usize> {
+        self.0.read(buf)
+    }
+    fn fill_take(&mut self, k: usize, out: &mut Vec<u8>) -> io::Result<Option<usize>> {
+        let b = self.0.fill_buf()?;
+        if b.is_empty() {
+            return Ok(None);
+        }
+        let n = k.min(b.len());
+        out.extend_from_slice(&b[..n]);
+        self.0.consume(n);
+        Ok(Some(n))
+    }
+    fn to_end(&mut self, out: &mut Vec<u8>) -> io::Result<usize> {
+        self.0.read_to_end(out)
+    }
+    fn to_string(&mut self, out: &mut String) -> io::Result<usize> {
+        self.0.read_to_string(out)
+    }
+}
+
+impl<R: Read + ?Sized> Port for ReadPort<'_, R> {
+    fn rd(&mut self, buf: &mut [u8]) -> io::Result<usize> {
+        self.0.read(buf)
+    }
+    fn fill_take(&mut self, k: usize, out: &mut Vec<u8>) -> io::Result<Option<usize>> {
+        let mut buf = vec![0u8; k.min(8192)];
+        let n = self.0.read(&mut buf)?;
+        if n == 0 && k > 0 {
+            return Ok(None);
+        }
+        out.extend_from_slice(&buf[..n]);
+        Ok(Some(n))
+    }
+    fn to_end(&mut self, out: &mut Vec<u8>) -> io::Result<usize> {
+        self.0.read_to_end(out)
+    }
+    fn to_string(&mut self, out: &mut String) -> io::Result<usize> {
+        self.0.read_to_string(out)
+    }
+}
+
+/// Runs one mixed schedule. Like `shim::drain`: stops at the first error, retries `Interrupted` of a single
+/// `read` / `fill_buf` (at most 1000 times).
+fn drain_mix(p: &mut dyn Port, mix: &Mix) -> crate::shim::Drained {
+    use crate::shim::Drained;
+    let mut out: Vec<u8> = Vec::new();
+    let mut interrupts = 0usize;
+    // one step; Ok(true) = the end of the stream was reported
+    let mut step = |p: &mut dyn Port, op: &Op, out: &mut Vec<u8>| -> io::Result<bool> {
+        loop {
+            let r = match op {
+                Op::Read(n) => {
+                    let mut buf = vec![0u8; *n];
+                    p.rd(&mut buf).map(|got| {
+                        out.extend_from_slice(&buf[..got.min(*n)]);
+                        got == 0 && *n > 0
+                    })
+                }
+                Op::Fill(k) => p.fill_take(*k, out).map(|o| o.is_none()),
+            };
+            match r {
+                Err(e) if e.kind() == io::ErrorKind::Interrupted && interrupts < 1000 => interrupts += 1,
+                r => return r,
+            }
+        }
+    };
+    let mut ended = false;
+    // prefix
+    if !mix.pre.is_empty() {
+        'pre: loop {
+            let before = out.len();
+            for op in &mix.pre {
+                match step(p, op, &mut out) {
+                    Ok(true) => {
+                        ended = true;
+                        break 'pre;
+                    }
+                    Ok(false) => {}
+                    Err(e) => return Drained { data: out, err: Some(e) },
+                }
+                if mix.until > 0 && out.len() >= mix.until {
+                    break 'pre;
+                }
+            }
+            if mix.until == 0 || out.len() == before {
+                break;
+            }
+        }
+    }
+    // final step (also when the prefix already saw the end: asking again must give nothing more)
+    match &mix.fin {
+        Fin::ToEnd => {
+            if let Err(e) = p.to_end(&mut out) {
+                return Drained { data: out, err: Some(e) };
+            }
+        }
+        Fin::ToString => {
+            // complete a character the prefix may have cut
+            for _ in 0..3 {
+                match std::str::from_utf8(&out) {
+                    Err(e) if e.error_len().is_none() && !ended => match step(p, &Op::Read(1), &mut out) {
+                        Ok(true) => ended = true,
+                        Ok(false) => {}
+                        Err(e) => return Drained { data: out, err: Some(e) },
+                    },
+                    _ => break,
+                }
+            }
+            let mut s = String::new();
+            let r = p.to_string(&mut s);
+            out.extend_from_slice(s.as_bytes());
+            if let Err(e) = r {
+                return Drained { data: out, err: Some(e) };
+            }
+        }
+        Fin::Ops(v) => {
+            let progress = v.iter().any(|o| !matches!(o, Op::Read(0) | Op::Fill(0)));
+            while !ended && progress {
+                for op in v {
+                    match step(p, op, &mut out) {
+                        Ok(true) => {
+                            ended = true;
+                            break;
+                        }
+                        Ok(false) => {}
+                        Err(e) => return Drained { data: out, err: Some(e) },
+                    }
+                }
+            }
+        }
+    }
+    if mix.probe_after_end {
+        for op in [Op::Read(4), Op::Fill(usize::MAX)] {
+            if let Err(e) = step(p, &op, &mut out) {
+                return Drained { data: out, err: Some(e) };
+            }
+        }
+        if let Err(e) = p.to_end(&mut out) {
+            return Drained { data: out, err: Some(e) };
+        }
+    }
+    Drained { data: out, err: None }
+}
+
+/// A consumer schedule: one of the shared homogeneous patterns or a local mixed one.
+#[derive(Clone, Copy)]
+enum AnyCons<'a> {
+    S(&'a Consume),
+    M(&'a Mix),
+}
+
+impl AnyCons<'_> {
+    fn name(&self) -> String {
+        match self {
+            AnyCons::S(c) => c.name(),
+            AnyCons::M(m) => m.name(),
+        }
+    }
+}
+
+fn drain_any<R: BufRead>(r: &mut R, c: AnyCons<'_>) -> crate::shim::Drained {
+    match c {
+        AnyCons::S(c) => drain(r, c),
+        AnyCons::M(m) => drain_mix(&mut BufPort(r), m),
+    }
+}
+
+fn drain_read_any<R: Read>(r: &mut R, c: AnyCons<'_>) -> crate::shim::Drained {
+    match c {
+        AnyCons::S(c) => drain_read(r, c),
+        AnyCons::M(m) => drain_mix(&mut ReadPort(r), m),
+    }
+}
+
+/// The same schedule without its zero-length reads (None: it has none).
+fn strip_zero_reads(m: &Mix) -> Option<Mix> {
+    let has = |v: &[Op]| v.iter().any(|o| matches!(o, Op::Read(0)));
+    let strip = |v: &[Op]| v.iter().filter(|o| !matches!(o, Op::Read(0))).cloned().collect::<Vec<_>>();
+    let fin_has = matches!(&m.fin, Fin::Ops(v) if has(v));
+    if !has(&m.pre) && !fin_has {
+        return None;
+    }
+    let mut n = m.clone();
+    n.pre = strip(&m.pre);
+    if let Fin::Ops(v) = &m.fin {
+        n.fin = Fin::Ops(strip(v));
+    }
+    Some(n)
+}
+
+/// Judgement of a mixed-schedule run. A difference is reported as `C09/<comp>/mixed/..`; if the schedule contains
+/// zero-length reads and the same schedule WITHOUT them agrees with R0, the zero-length read is what the reader
+/// does not tolerate and the class is `C09/<comp>/zero-length-read/..` (`read(&mut [])` must return Ok(0) and
+/// leave the reader untouched: std::io::Read names the empty buffer as the second meaning of Ok(0)).
+fn judge_mix(ctx: &mut Ctx, comp: &str, r0: &Out, got: &Out, m: &Mix, rerun: &dyn Fn(&Mix) -> Out, what: &dyn Fn() -> String, replay: &dyn Fn() -> Value) -> bool {
+    if r0.same(got) {
+        return true;
+    }
+    let oracle = match strip_zero_reads(m) {
+        Some(m2) => match crate::core::guard(|| rerun(&m2)) {
+            Ok(o) if r0.same(&o) => "zero-length-read",
+            _ => "mixed",
+        },
+        None => "mixed",
+    };
+    judge_as(ctx, comp, oracle, r0, got, what, replay)
+}
+
+/// Runs every (source schedule, mixed consumer) pair of a component and compares with R0.
+/// `per`: 0 = full cross product, k = a window of k mixes rotating with the schedule index.
+#[allow(clippy::too_many_arguments)]
+fn mix_diff(ctx: &mut Ctx, comp: &str, desc: &str, r0: &Out, scheds: &[Sched], mixes: &[Mix], per: usize, replay_base: &Value, runner: &dyn Fn(&Sched, AnyCons<'_>) -> Out) {
+    let salt = crate::core::hash64(&desc) as usize % 1000;
+    for (si, sc) in scheds.iter().enumerate() {
+        let picked: Vec<&Mix> = if per == 0 || per >= mixes.len() { mixes.iter().collect() } else { (0..per).map(|t| &mixes[(si * per + salt + t) % mixes.len()]).collect() };
+        for m in picked {
+            let replay = || {
+                let mut v = replay_base.clone();
+                v["sched"] = sched_json(sc);
+                v["consumer"] = json!(m.name());
+                v
+            };
+            let got = guarded(ctx, &format!("C09/{comp}/mixed"), replay, || runner(sc, AnyCons::M(m)));
+            ctx.eval();
+            let Some(got) = got else { continue };
+            ctx.cover(&("mix", comp, desc, sc.name(), m.name()));
+            ctx.seen(&format!("mix.{comp}"), format!("{}+{}", m.pre_class(), m.fin_class()));
+            judge_mix(ctx, comp, r0, &got, m, &|m2| runner(sc, AnyCons::M(m2)), &|| format!("{comp} {desc}, source {} {}, mixed consumer {}", sc.name(), sched_json(sc), m.name()), &replay);
+        }
+    }
+}
+
 fn payload(rng: &mut ChaCha8Rng, n: usize, text: bool) -> Vec<u8> {
     if text {
         // compressible UTF-8 text with CRLF line ends and multi-octet characters (legal for Utf8
@@ -668,7 +1099,9 @@ pub fn run(ctx: &mut Ctx) {
     // Safety net: a panic outside the guarded library calls (a harness fault, or a library panic in
     // a place no guard covers) must not take the shard down silently.
     let env = MsgEnv::new();
-    let fams: [(&str, &dyn Fn(&mut Ctx)); 6] = [
+    let fams: [(&str, &dyn Fn(&mut Ctx)); 8] = [
+        ("U", &|c: &mut Ctx| family_text_refusal(c, &env)),
+        ("X", &|c: &mut Ctx| family_mixed(c, &env)),
         ("F", &|c: &mut Ctx| family_files(c, &env)),
         ("S", &family_small),
         ("D", &family_dearmor),
@@ -717,10 +1150,14 @@ fn run_b64_reader(text: &Arc<Vec<u8>>, sched: &Sched, cons: &Consume, fault: Opt
 }
 
 fn run_b64_stack(text: &Arc<Vec<u8>>, sched: &Sched, cons: &Consume, fault: Option<Fault>) -> (Out, LogRef) {
+    run_b64_stack_any(text, sched, AnyCons::S(cons), fault)
+}
+
+fn run_b64_stack_any(text: &Arc<Vec<u8>>, sched: &Sched, cons: AnyCons<'_>, fault: Option<Fault>) -> (Out, LogRef) {
     let src = Src::new(text, sched).fault(fault);
     let log = src.log();
     let mut d = Base64Decoder::new(Base64Reader::new(src));
-    let r = drain_read(&mut d, cons);
+    let r = drain_read_any(&mut d, cons);
     let out = match r.err {
         None => Out::ok(r.data, ""),
         Some(e) => Out::err("read", e, r.data),
@@ -729,10 +1166,14 @@ fn run_b64_stack(text: &Arc<Vec<u8>>, sched: &Sched, cons: &Consume, fault: Opti
 }
 
 fn run_normalized(text: &Arc<Vec<u8>>, lb: LineBreak, sched: &Sched, cons: &Consume, fault: Option<Fault>) -> (Out, LogRef) {
+    run_normalized_any(text, lb, sched, AnyCons::S(cons), fault)
+}
+
+fn run_normalized_any(text: &Arc<Vec<u8>>, lb: LineBreak, sched: &Sched, cons: AnyCons<'_>, fault: Option<Fault>) -> (Out, LogRef) {
     let src = Src::new(text, sched).fault(fault);
     let log = src.log();
     let mut d = NormalizedReader::new(src, lb);
-    let r = drain_read(&mut d, cons);
+    let r = drain_read_any(&mut d, cons);
     let out = match r.err {
         None => Out::ok(r.data, ""),
         Some(e) => Out::err("read", e, r.data),
@@ -794,6 +1235,7 @@ fn small_consumers() -> Vec<Consume> {
 fn family_small(ctx: &mut Ctx) {
     let nmax = ctx.qt(10usize, 12usize);
     let cons = small_consumers();
+    let smix = small_mixes();
 
     // --- S1: Base64Decoder over a raw source, Base64Reader, and both stacked -----------------
     // texts: canonical base64 of d bytes (d = 0..=nmax*3/4) without and with line breaks
@@ -859,6 +1301,17 @@ fn family_small(ctx: &mut Ctx) {
                         let Some(got) = got else { continue };
                         judge(ctx, comp, &r0, &got, &|| format!("{comp} over {:?}, source pieces split at {:?}, consumer {}", String::from_utf8_lossy(&text), composition_splits(n, mask), c.name()), &replay);
                     }
+                    if comp == "base64-stack" {
+                        for t in 0..2u64 {
+                            let m = &smix[((mask * 2 + t) as usize + dlen) % smix.len()];
+                            let replay = || json!({"family": "S1", "component": comp, "text": hexs(&text), "mask": mask, "consumer": m.name()});
+                            let got = guarded(ctx, &format!("C09/{comp}/mixed"), replay, || run_b64_stack_any(&text, &sc, AnyCons::M(m), None).0);
+                            ctx.eval();
+                            let Some(got) = got else { continue };
+                            ctx.seen("mix.base64-stack", format!("{}+{}", m.pre_class(), m.fin_class()));
+                            judge_mix(ctx, comp, &r0, &got, m, &|m2| run_b64_stack_any(&text, &sc, AnyCons::M(m2), None).0, &|| format!("{comp} over {:?}, source pieces split at {:?}, mixed consumer {}", String::from_utf8_lossy(&text), composition_splits(n, mask), m.name()), &replay);
+                        }
+                    }
                 }
                 ctx.tally(&format!("S.{comp}.compositions"), ncomp);
                 // faults: every call index of two schedules
@@ -874,6 +1327,56 @@ fn family_small(ctx: &mut Ctx) {
                             let Some((got, log)) = r else { continue };
                             let raised = log.lock().unwrap().faults_raised;
                             judge_fault(ctx, comp, &r0, &got, raised, &f, &|| format!("{comp} over {:?} sched {}", String::from_utf8_lossy(&text), sc.name()), &replay);
+                        }
+                    }
+                }
+            }
+        }
+    }
+
+    // --- S1b: ARBITRARY short texts over {A, B, =, LF, !}: mostly not decodable (the decoder stops silently at the
+    // first quantum it cannot decode, it never refuses). R0 decides how much is decoded (no expectation
+    // of our own); whether the text is refused, and what was decoded if it is accepted, must not depend on the
+    // composition of the source reads nor on the consumer ---------------------------------------------------
+    let blen = ctx.qt(5usize, 6usize);
+    for len in 1..=blen {
+        let nstr = 5u64.pow(len as u32);
+        for group in 0..nstr.div_ceil(125) {
+            if !ctx.mine() {
+                continue;
+            }
+            describe_case(&format!("S1b arbitrary base64 texts of length {len}, group {group}"));
+            for si in group * 125..((group + 1) * 125).min(nstr) {
+                let text = Arc::new(nth_string(si, len, b"AB=\n!"));
+                ctx.cover(&("S1b", &*text));
+                for comp in ["base64-decoder", "base64-reader", "base64-stack"] {
+                    let runner = |sc: &Sched, c: AnyCons<'_>| match comp {
+                        "base64-decoder" => {
+                            let mut d = Base64Decoder::new(Src::new(&text, sc));
+                            let r = drain_read_any(&mut d, c);
+                            r.err.map(|e| Out::err("read", e, vec![])).unwrap_or(Out::ok(r.data, ""))
+                        }
+                        "base64-reader" => {
+                            let mut d = Base64Reader::new(Src::new(&text, sc));
+                            let r = drain_read_any(&mut d, c);
+                            r.err.map(|e| Out::err("read", e, vec![])).unwrap_or(Out::ok(r.data, ""))
+                        }
+                        _ => run_b64_stack_any(&text, sc, c, None).0,
+                    };
+                    let Some(r0) = guarded(ctx, &format!("C09/{comp}/sched"), || json!({"family": "S1b", "text": hexs(&text)}), || runner(&Sched::All, AnyCons::S(&Consume::ToEnd))) else { continue };
+                    ctx.eval();
+                    ctx.seen(&format!("S1b.{comp}.r0-class"), if r0.err { "refused" } else { "accepted" });
+                    for mask in 0..1u64 << (len - 1) {
+                        let sc = Sched::SplitAt(composition_splits(len, mask));
+                        for c in [Consume::ToEnd, Consume::Read(1), Consume::Read(3)] {
+                            if mask == 0 && c == Consume::ToEnd {
+                                continue;
+                            }
+                            let replay = || json!({"family": "S1b", "component": comp, "text": hexs(&text), "mask": mask, "consumer": c.name()});
+                            let got = guarded(ctx, &format!("C09/{comp}/sched"), replay, || runner(&sc, AnyCons::S(&c)));
+                            ctx.eval();
+                            let Some(got) = got else { continue };
+                            judge(ctx, comp, &r0, &got, &|| format!("{comp} over the arbitrary text {:?}, source pieces split at {:?}, consumer {}", String::from_utf8_lossy(&text), composition_splits(len, mask), c.name()), &replay);
                         }
                     }
                 }
@@ -964,6 +1467,16 @@ fn family_small(ctx: &mut Ctx) {
                             ctx.eval();
                             let Some(got) = got else { continue };
                             judge(ctx, comp, &r0, &got, &|| format!("NormalizedReader({:?},{}) source split at {:?} consumer {}", String::from_utf8_lossy(&s), lb_name(lb), composition_splits(len, mask), c.name()), &replay);
+                        }
+                        {
+                            let m = &smix[(si + mask) as usize % smix.len()];
+                            let replay = || json!({"family": "S3", "s": hexs(&s), "lb": lb_name(lb), "mask": mask, "consumer": m.name()});
+                            let got = guarded(ctx, "C09/normalized-reader/mixed", replay, || run_normalized_any(&s, lb, &sc, AnyCons::M(m), None).0);
+                            ctx.eval();
+                            if let Some(got) = got {
+                                ctx.seen("mix.normalized-reader", format!("{}+{}", m.pre_class(), m.fin_class()));
+                                judge_mix(ctx, comp, &r0, &got, m, &|m2| run_normalized_any(&s, lb, &sc, AnyCons::M(m2), None).0, &|| format!("NormalizedReader({:?},{}) source split at {:?} mixed consumer {}", String::from_utf8_lossy(&s), lb_name(lb), composition_splits(len, mask), m.name()), &replay);
+                            }
                         }
                     }
                 }
@@ -1239,10 +1752,14 @@ fn ref_lines(data: &[u8], width: usize, lb: LineBreak) -> Vec<u8> {
 // Family D: Dearmor
 
 fn run_dearmor(text: &Arc<Vec<u8>>, sched: &Sched, cons: &Consume, fault: Option<Fault>) -> (Out, LogRef) {
+    run_dearmor_any(text, sched, AnyCons::S(cons), fault)
+}
+
+fn run_dearmor_any(text: &Arc<Vec<u8>>, sched: &Sched, cons: AnyCons<'_>, fault: Option<Fault>) -> (Out, LogRef) {
     let src = Src::new(text, sched).fault(fault);
     let log = src.log();
     let mut d = Dearmor::new(src);
-    let r = drain_read(&mut d, cons);
+    let r = drain_read_any(&mut d, cons);
     let out = match r.err {
         None => Out::ok(r.data, format!("typ={:?} headers={:?} checksum={:?}", d.typ, d.headers, d.checksum)),
         Some(e) => Out::err("read", e, r.data),
@@ -1252,7 +1769,8 @@ fn run_dearmor(text: &Arc<Vec<u8>>, sched: &Sched, cons: &Consume, fault: Option
 
 fn family_dearmor(ctx: &mut Ctx) {
     // small armors: payload d bytes, with/without CRC line, with/without header line, CRLF
-    let mut armors: Vec<(String, Vec<u8>, Vec<u8>)> = vec![];
+    // (name, armor text, Some(payload) for a well-formed armor / None for a damaged one)
+    let mut armors: Vec<(String, Vec<u8>, Option<Vec<u8>>)> = vec![];
     for (name, dlen, crc, hdr, crlf) in [
         ("d3-crc", 3usize, true, false, false),
         ("d4-nocrc", 4, false, false, false),
@@ -1282,16 +1800,76 @@ fn family_dearmor(ctx: &mut Ctx) {
             t.push_str(nl);
         }
         t.push_str(&format!("-----END PGP MESSAGE-----{nl}"));
-        armors.push((name.to_string(), t.into_bytes(), data));
+        armors.push((name.to_string(), t.into_bytes(), Some(data)));
     }
+    // damaged armors: whether (and after how many released octets does not matter) the dearmorer refuses them
+    // must not depend on the schedules either. No expectation of our own: R0 decides the class.
+    {
+        let find = |name: &str| armors.iter().find(|a| a.0 == name).map(|a| String::from_utf8_lossy(&a.1).to_string()).unwrap_or_default();
+        let base = find("d5-crc-hdr");
+        let long = find("d48-crc");
+        let crlf = find("d7-crc-crlf");
+        let body_at = base.find("\n\n").map(|i| i + 2).unwrap_or(0);
+        let mut damaged: Vec<(&str, String)> = vec![];
+        // a wrong CRC-24
+        damaged.push(("bad-crc", {
+            let i = base.find("\n=").map(|i| i + 2).unwrap_or(0);
+            let mut b = base.clone().into_bytes();
+            b[i] = if b[i] == b'A' { b'B' } else { b'A' };
+            String::from_utf8_lossy(&b).to_string()
+        }));
+        // an octet outside the base64 alphabet in the body
+        damaged.push(("bad-char", {
+            let mut b = base.clone().into_bytes();
+            b[body_at + 2] = b'!';
+            String::from_utf8_lossy(&b).to_string()
+        }));
+        // padding in the middle of the body
+        damaged.push(("pad-inside", {
+            let mut b = long.clone().into_bytes();
+            let at = long.find("\n\n").map(|i| i + 2).unwrap_or(0) + 5;
+            b[at] = b'=';
+            String::from_utf8_lossy(&b).to_string()
+        }));
+        // the END line is missing / cut / misspelt
+        damaged.push(("no-footer", base[..base.find("-----END").unwrap_or(base.len())].to_string()));
+        damaged.push(("cut-footer", base[..base.len().saturating_sub(4)].to_string()));
+        damaged.push(("wrong-footer", base.replace("END PGP MESSAGE", "END PGP SIGNATURE")));
+        // a header line without colon, no blank line after the headers
+        damaged.push(("bad-header", base.replace("Comment: x", "Comment x")));
+        damaged.push(("no-blank-line", crlf.replacen("\r\n\r\n", "\r\n", 1)));
+        // body cut inside a base64 quantum
+        damaged.push(("cut-quantum", {
+            let mut t = base[..body_at + 3].to_string();
+            t.push_str("\n-----END PGP MESSAGE-----\n");
+            t
+        }));
+        // garbage in front of the BEGIN line, text after the END line
+        damaged.push(("leading-text", format!("hello\n{base}")));
+        damaged.push(("trailing-text", format!("{base}trailing\n")));
+        for (name, text) in damaged {
+            armors.push((format!("damaged-{name}"), text.into_bytes(), None));
+        }
+    }
+    let dmix: Vec<Mix> = {
+        let mut v = small_mixes();
+        v.extend([Mix::new(&[Op::Read(7)], 0, Fin::ToEnd), Mix::new(&[Op::Read(64)], 0, Fin::ToEnd), Mix::new(&[], 0, Fin::Ops(vec![Op::Read(0), Op::Read(64)])).probe()]);
+        v
+    };
     let cons = [Consume::ToEnd, Consume::Read(1), Consume::Read(2), Consume::Read(3), Consume::Read(64), Consume::Read(4096)];
     for (name, text, data) in &armors {
         let n = text.len();
         let text = Arc::new(text.clone());
         // R0 (per armor, computed by every shard: cheap)
         let r0 = guarded(ctx, "C09/dearmor/sched", || json!({"armor": name}), || run_dearmor(&text, &Sched::All, &Consume::ToEnd, None).0);
+        ctx.seen("D.r0-class", match &r0 {
+            Some(r) if r.err => "refused",
+            Some(_) => "accepted",
+            None => "panic",
+        });
         let r0 = match r0 {
-            Some(r) if !r.err && r.data == *data => r,
+            Some(r) if data.is_none() => r,
+            Some(r) if !r.err && Some(&r.data) == data.as_ref() => r,
             Some(r) => {
                 if ctx.mine() {
                     ctx.violation("C09/dearmor/r0-wrong", format!("all-at-once Dearmor of a well-formed armor ({name}) gives {}", r.brief()), json!({"armor": hexs(&text)}));
@@ -1333,6 +1911,17 @@ fn family_dearmor(ctx: &mut Ctx) {
                     let Some(got) = got else { continue };
                     judge(ctx, "dearmor", &r0, &got, &|| format!("Dearmor of armor {name} ({n} bytes), source {} {:?}, consumer {}", sc.name(), sched_json(sc), c.name()), &replay);
                 }
+                // mixed consumer schedules: three (Fixed / single split) or one (pairs) per source schedule, rotating
+                let nm = if matches!(sc, Sched::SplitAt(v) if v.len() == 2) { 1 } else { 3 };
+                for t in 0..nm {
+                    let m = &dmix[(gi * 64 + j * nm + t) % dmix.len()];
+                    let replay = || json!({"family": "D", "armor": hexs(&text), "sched": sched_json(sc), "consumer": m.name()});
+                    let got = guarded(ctx, "C09/dearmor/mixed", replay, || run_dearmor_any(&text, sc, AnyCons::M(m), None).0);
+                    ctx.eval();
+                    let Some(got) = got else { continue };
+                    ctx.seen("mix.dearmor", format!("{}+{}", m.pre_class(), m.fin_class()));
+                    judge_mix(ctx, "dearmor", &r0, &got, m, &|m2| run_dearmor_any(&text, sc, AnyCons::M(m2), None).0, &|| format!("Dearmor of armor {name} ({n} bytes), source {} {:?}, mixed consumer {}", sc.name(), sched_json(sc), m.name()), &replay);
+                }
             }
         }
         // faults: every call of four schedules
@@ -1369,13 +1958,17 @@ fn alg_id(a: SymmetricKeyAlgorithm) -> u8 {
 }
 
 fn run_cfb_enc(alg: SymmetricKeyAlgorithm, plain: &Arc<Vec<u8>>, sched: &Sched, cons: &Consume, fault: Option<Fault>) -> (Out, LogRef) {
+    run_cfb_enc_any(alg, plain, sched, AnyCons::S(cons), fault)
+}
+
+fn run_cfb_enc_any(alg: SymmetricKeyAlgorithm, plain: &Arc<Vec<u8>>, sched: &Sched, cons: AnyCons<'_>, fault: Option<Fault>) -> (Out, LogRef) {
     let src = Src::new(plain, sched).fault(fault);
     let log = src.log();
     let rng = ChaCha8Rng::seed_from_u64(0xC09);
     let out = match alg.stream_encryptor(rng, &CFB_KEY[..alg.key_size()], src) {
         Err(e) => Out::err("new", e, vec![]),
         Ok(mut enc) => {
-            let r = drain_read(&mut enc, cons);
+            let r = drain_read_any(&mut enc, cons);
             match r.err {
                 None => Out::ok(r.data, ""),
                 Some(e) => Out::err("read", e, r.data),
@@ -1393,6 +1986,10 @@ enum CfbMode {
 }
 
 fn run_cfb_dec(alg: SymmetricKeyAlgorithm, mode: CfbMode, ct: &Arc<Vec<u8>>, sched: &Sched, cons: &Consume, fault: Option<Fault>) -> (Out, LogRef) {
+    run_cfb_dec_any(alg, mode, ct, sched, AnyCons::S(cons), fault)
+}
+
+fn run_cfb_dec_any(alg: SymmetricKeyAlgorithm, mode: CfbMode, ct: &Arc<Vec<u8>>, sched: &Sched, cons: AnyCons<'_>, fault: Option<Fault>) -> (Out, LogRef) {
     let src = Src::new(ct, sched).fault(fault);
     let log = src.log();
     let key = &CFB_KEY[..alg.key_size()];
@@ -1404,7 +2001,7 @@ fn run_cfb_dec(alg: SymmetricKeyAlgorithm, mode: CfbMode, ct: &Arc<Vec<u8>>, sch
     let out = match dec {
         Err(e) => Out::err("new", e, vec![]),
         Ok(mut dec) => {
-            let r = drain(&mut dec, cons);
+            let r = drain_any(&mut dec, cons);
             match r.err {
                 None => Out::ok(r.data, ""),
                 Some(e) => Out::err("read", e, r.data),
@@ -1417,12 +2014,16 @@ fn run_cfb_dec(alg: SymmetricKeyAlgorithm, mode: CfbMode, ct: &Arc<Vec<u8>>, sch
 const AEAD_SALT: [u8; 32] = [0x5a; 32];
 
 fn run_aead_enc(sym: SymmetricKeyAlgorithm, aead: AeadAlgorithm, cs: ChunkSize, plain: &Arc<Vec<u8>>, sched: &Sched, cons: &Consume, fault: Option<Fault>) -> (Out, LogRef) {
+    run_aead_enc_any(sym, aead, cs, plain, sched, AnyCons::S(cons), fault)
+}
+
+fn run_aead_enc_any(sym: SymmetricKeyAlgorithm, aead: AeadAlgorithm, cs: ChunkSize, plain: &Arc<Vec<u8>>, sched: &Sched, cons: AnyCons<'_>, fault: Option<Fault>) -> (Out, LogRef) {
     let src = Src::new(plain, sched).fault(fault);
     let log = src.log();
     let out = match SymEncryptedProtectedData::encrypt_seipdv2_stream(sym, aead, cs, &CFB_KEY[..sym.key_size()], AEAD_SALT, src) {
         Err(e) => Out::err("new", e, vec![]),
         Ok(mut enc) => {
-            let r = drain_read(&mut enc, cons);
+            let r = drain_read_any(&mut enc, cons);
             match r.err {
                 None => Out::ok(r.data, ""),
                 Some(e) => Out::err("read", e, r.data),
@@ -1433,12 +2034,16 @@ fn run_aead_enc(sym: SymmetricKeyAlgorithm, aead: AeadAlgorithm, cs: ChunkSize, 
 }
 
 fn run_aead_dec(sym: SymmetricKeyAlgorithm, aead: AeadAlgorithm, cs: ChunkSize, ct: &Arc<Vec<u8>>, sched: &Sched, cons: &Consume, fault: Option<Fault>) -> (Out, LogRef) {
+    run_aead_dec_any(sym, aead, cs, ct, sched, AnyCons::S(cons), fault)
+}
+
+fn run_aead_dec_any(sym: SymmetricKeyAlgorithm, aead: AeadAlgorithm, cs: ChunkSize, ct: &Arc<Vec<u8>>, sched: &Sched, cons: AnyCons<'_>, fault: Option<Fault>) -> (Out, LogRef) {
     let src = Src::new(ct, sched).fault(fault);
     let log = src.log();
     let out = match pgp::crypto::aead::StreamDecryptor::new_rfc9580(sym, aead, cs, &AEAD_SALT, &CFB_KEY[..sym.key_size()], src) {
         Err(e) => Out::err("new", e, vec![]),
         Ok(mut dec) => {
-            let r = drain(&mut dec, cons);
+            let r = drain_any(&mut dec, cons);
             match r.err {
                 None => Out::ok(r.data, ""),
                 Some(e) => Out::err("read", e, r.data),
@@ -1624,8 +2229,13 @@ fn family_streams(ctx: &mut Ctx) {
             let base = json!({"family": "E1", "component": "cfb-encryptor", "alg": alg_id(alg), "plain": hexs(&plain)});
             let mut scheds_all = vec![Sched::All];
             scheds_all.extend(scheds.iter().cloned());
+            // mixed consumer schedules (read / zero-length read / fill_buf+consume, then read_to_end or a loop)
+            let mix_scheds = [Sched::All, Sched::Fixed(1), Sched::Fixed(4096), Sched::Cycle(vec![8191, 1, 8192, 8193]), Sched::Random(seeds[0], 700)];
+            let ms = mixes(8192, false, thorough);
+            let mper = if *n > 4096 { ctx.qt(8usize, 16usize) } else { 0 };
             if sub[0] {
                 diff_and_fault(ctx, "cfb-encryptor", &format!("{alg:?} over {n} plaintext bytes"), &r0, &scheds_all, &read_cons, &[Sched::All, Sched::Fixed(4096), Sched::Fixed(1)], &Consume::Read(100), &[8192, 16384], (64, 24, cps), &base, &|sc, c, f| run_cfb_enc(alg, &plain, sc, c, f));
+                mix_diff(ctx, "cfb-encryptor", &format!("{alg:?} over {n} plaintext bytes"), &r0, &mix_scheds, &ms, mper, &base, &|sc, c| run_cfb_enc_any(alg, &plain, sc, c, None).0);
             }
 
             // decryptors over the R0 ciphertext
@@ -1658,6 +2268,7 @@ fn family_streams(ctx: &mut Ctx) {
                 }
                 let base = json!({"family": "E2", "component": comp, "alg": alg_id(alg), "ct": hexs(&ct)});
                 diff_and_fault(ctx, comp, &format!("{alg:?} over {} ciphertext bytes", ct.len()), &d0, &dscheds, &buf_cons, &[Sched::All, Sched::Fixed(4096), Sched::Fixed(3)], &Consume::Read(100), &cb, (64, 24, cps), &base, &|sc, c, f| run_cfb_dec(alg, mode, &ct, sc, c, f));
+                mix_diff(ctx, comp, &format!("{alg:?} over {} ciphertext bytes", ct.len()), &d0, &mix_scheds, &ms, mper, &base, &|sc, c| run_cfb_dec_any(alg, mode, &ct, sc, c, None).0);
             }
             // unprotected (SED) form: reference ciphertext with resync
             let prefix: Vec<u8> = (0..bs).map(|i| i as u8 ^ 0x33).collect();
@@ -1675,6 +2286,7 @@ fn family_streams(ctx: &mut Ctx) {
                         let base = json!({"family": "E2", "component": comp, "alg": alg_id(alg), "ct": hexs(&sed)});
                         let short: Vec<Sched> = dscheds.iter().take(if thorough { dscheds.len() } else { 8 }).cloned().collect();
                         diff_and_fault(ctx, comp, &format!("{alg:?} over {} ciphertext bytes", sed.len()), &d0, &short, &buf_cons, &[Sched::All, Sched::Fixed(3)], &Consume::Read(100), &cb, (48, 16, cps), &base, &|sc, c, f| run_cfb_dec(alg, CfbMode::Unprotected, &sed, sc, c, f));
+                        mix_diff(ctx, comp, &format!("{alg:?} over {} ciphertext bytes", sed.len()), &d0, &mix_scheds, &ms, mper, &base, &|sc, c| run_cfb_dec_any(alg, CfbMode::Unprotected, &sed, sc, c, None).0);
                     }
                 }
             }
@@ -1724,6 +2336,16 @@ fn family_streams(ctx: &mut Ctx) {
             let cps = if *n > 4096 { ctx.qt(5usize, 7usize) } else { 0 };
             let mut scheds = vec![Sched::All, Sched::Fixed(chunk - 1), Sched::Fixed(chunk), Sched::Fixed(chunk + 1)];
             scheds.extend(adversarial(*n, &pb, &seeds, thorough));
+            // mixed consumer schedules: step sizes around the chunk size and around the 8192-octet windows
+            let mix_scheds = [Sched::All, Sched::Fixed(1), Sched::Fixed(chunk + 16), Sched::Cycle(vec![chunk - 1, 1, chunk, chunk + 17]), Sched::Random(seeds[0], 700)];
+            let ms: Vec<Mix> = {
+                let mut v = mixes(chunk, false, thorough);
+                if chunk != 8192 && *n >= 8192 {
+                    v.extend(mixes(8192, false, false));
+                }
+                v
+            };
+            let mper = if *n > 4096 { ctx.qt(8usize, 16usize) } else { 0 };
             let Some(r0) = guarded(ctx, "C09/aead-encryptor/sched", || json!({"aead": ai, "size": n}), || hooks::record(|| run_aead_enc(sym, aead, cs, &plain, &Sched::All, &Consume::ToEnd, None).0)) else { continue };
             ctx.eval();
             let (r0, ev) = r0;
@@ -1743,6 +2365,7 @@ fn family_streams(ctx: &mut Ctx) {
             let base = json!({"family": "E3", "component": "aead-encryptor", "sym": alg_id(sym), "aead": u8::from(aead), "chunk": chunk, "plain": hexs(&plain)});
             if sub[0] {
                 diff_and_fault(ctx, "aead-encryptor", &format!("{sym:?}/{aead:?}/chunk {chunk} over {n} plaintext bytes"), &r0, &scheds, &read_cons, &[Sched::All, Sched::Fixed(chunk), Sched::Fixed(1)], &Consume::Read(100), &pb, (64, 16, cps), &base, &|sc, c, f| run_aead_enc(sym, aead, cs, &plain, sc, c, f));
+                mix_diff(ctx, "aead-encryptor", &format!("{sym:?}/{aead:?}/chunk {chunk} over {n} plaintext bytes"), &r0, &mix_scheds, &ms, mper, &base, &|sc, c| run_aead_enc_any(sym, aead, cs, &plain, sc, c, None).0);
             }
             if !sub[1] {
                 continue;
@@ -1767,6 +2390,7 @@ fn family_streams(ctx: &mut Ctx) {
             }
             let base = json!({"family": "E4", "component": "aead-decryptor", "sym": alg_id(sym), "aead": u8::from(aead), "chunk": chunk, "ct": hexs(&ct)});
             diff_and_fault(ctx, "aead-decryptor", &format!("{sym:?}/{aead:?}/chunk {chunk} over {} ciphertext bytes", ct.len()), &d0, &dscheds, &buf_cons, &[Sched::All, Sched::Fixed(ec), Sched::Fixed(3)], &Consume::Read(100), &cb, (64, 16, cps), &base, &|sc, c, f| run_aead_dec(sym, aead, cs, &ct, sc, c, f));
+            mix_diff(ctx, "aead-decryptor", &format!("{sym:?}/{aead:?}/chunk {chunk} over {} ciphertext bytes", ct.len()), &d0, &mix_scheds, &ms, mper, &base, &|sc, c| run_aead_dec_any(sym, aead, cs, &ct, sc, c, None).0);
         }
     }
 
@@ -2061,6 +2685,10 @@ fn run_build(env: &MsgEnv, cfg: &Cfg, data: &Arc<Vec<u8>>, src_sched: &Sched, sr
 
 /// One reader run over `wire`.
 fn run_read(env: &MsgEnv, cfg: &Cfg, wire: &Arc<Vec<u8>>, armored: bool, sched: &Sched, cons: &Consume, fault: Option<Fault>) -> (Out, LogRef) {
+    run_read_any(env, cfg, wire, armored, sched, AnyCons::S(cons), fault)
+}
+
+fn run_read_any(env: &MsgEnv, cfg: &Cfg, wire: &Arc<Vec<u8>>, armored: bool, sched: &Sched, cons: AnyCons<'_>, fault: Option<Fault>) -> (Out, LogRef) {
     let src = Src::new(wire, sched).fault(fault);
     let log = src.log();
     let out = (|| {
@@ -2110,7 +2738,7 @@ fn run_read(env: &MsgEnv, cfg: &Cfg, wire: &Arc<Vec<u8>>, armored: bool, sched: 
                 break;
             }
         }
-        let d = drain(&mut msg, cons);
+        let d = drain_any(&mut msg, cons);
         if let Some(e) = d.err {
             return Out::err("read", e, d.data);
         }
@@ -2245,6 +2873,231 @@ fn family_files(ctx: &mut Ctx, env: &MsgEnv) {
         }
     }
     let _ = std::fs::remove_dir_all(&dir);
+}
+
+// ==========================================================================================
+// Family U: inputs the builder REFUSES. The outcome class (Ok / Err) of `MessageBuilder::from_reader`
+// with `DataMode::Utf8` must not depend on the read schedule of the source: the line-ending and UTF-8
+// checkers keep carry state across source reads (pending CR, incomplete character).
+
+/// CR, LF, an ASCII letter, and the lead octets of 2-, 3- and 4-octet characters with a continuation
+/// octet that is valid behind each of them (C3 A9, E2 A9 A9, F0 A9 A9 A9 are well-formed).
+const U_ALPHA: [u8; 7] = [b'\r', b'\n', b'a', 0xC3, 0xA9, 0xE2, 0xF0];
+
+/// Reference class of a text for a Utf8 literal as the library documents it ("line endings are CR+LF, and
+/// the data is valid UTF-8"): Some(false) = must be refused (ill-formed UTF-8 or an LF without a CR in front),
+/// Some(true) = must be accepted, None = a CR without LF (the documentation does not decide it).
+/// Only tallied (evidence that the enumeration reaches both classes); the deciding oracle is agreement.
+fn ref_text_class(s: &[u8]) -> Option<bool> {
+    if std::str::from_utf8(s).is_err() {
+        return Some(false);
+    }
+    if (0..s.len()).any(|i| s[i] == b'\n' && (i == 0 || s[i - 1] != b'\r')) {
+        return Some(false);
+    }
+    if (0..s.len()).any(|i| s[i] == b'\r' && (i + 1 == s.len() || s[i + 1] != b'\n')) {
+        return None;
+    }
+    Some(true)
+}
+
+fn family_text_refusal(ctx: &mut Ctx, env: &MsgEnv) {
+    let thorough = !ctx.quick();
+    let cfgs = configs();
+    let plain = cfgs.iter().find(|c| c.name == "plain-1024-utf8").expect("config");
+    let signed = cfgs.iter().find(|c| c.name == "sig6-1024-text").expect("config");
+    let build_vec = |cfg: &Cfg, data: &Arc<Vec<u8>>, sc: &Sched| run_build(env, cfg, data, sc, None, Emit::Vec, &Sched::All, None).0;
+
+    // --- U1: every string over U_ALPHA up to length 6 (quick) / 7 (thorough) x every composition -----
+    let lmax = ctx.qt(6usize, 7usize);
+    const GROUP: u64 = 343;
+    for len in 0..=lmax {
+        let nstr = (U_ALPHA.len() as u64).pow(len as u32);
+        for group in 0..nstr.div_ceil(GROUP) {
+            if !ctx.mine() {
+                continue;
+            }
+            describe_case(&format!("U1 utf8 builder strings of length {len}, group {group}"));
+            for si in group * GROUP..((group + 1) * GROUP).min(nstr) {
+                let s = Arc::new(nth_string(si, len, &U_ALPHA));
+                let Some(r0) = guarded(ctx, "C09/builder-source/sched", || json!({"family": "U1", "text": hexs(&s)}), || build_vec(plain, &s, &Sched::All)) else { continue };
+                ctx.eval();
+                if len >= 2 {
+                    // (a text of 0 or 1 octets has no composition other than R0)
+                    ctx.cover(&("U1", &*s));
+                }
+                ctx.seen("U.r0-class", if r0.err { "refused" } else { "accepted" });
+                match (ref_text_class(&s), r0.err) {
+                    (Some(true), false) | (Some(false), true) => ctx.tally("U1.r0.agrees-with-documented-class", 1),
+                    (None, _) => ctx.tally("U1.r0.class-not-documented(lone CR)", 1),
+                    _ => ctx.tally("U1.r0.DISAGREES-with-documented-class", 1),
+                }
+                // accepted texts additionally through the text-signing configuration (normalising hasher)
+                let s0 = if r0.err {
+                    None
+                } else {
+                    let r = guarded(ctx, "C09/builder-source/sched", || json!({"family": "U1", "cfg": signed.name, "text": hexs(&s)}), || build_vec(signed, &s, &Sched::All));
+                    ctx.eval();
+                    r
+                };
+                let ncomp = 1u64 << len.saturating_sub(1);
+                for mask in 1..ncomp {
+                    let splits = composition_splits(len, mask);
+                    let sc = Sched::SplitAt(splits.clone());
+                    for (cfg, base) in [(plain, Some(&r0)), (signed, s0.as_ref())] {
+                        let Some(base) = base else { continue };
+                        let replay = || json!({"family": "U1", "cfg": cfg.name, "text": hexs(&s), "source_split_at": splits});
+                        let got = guarded(ctx, "C09/builder-source/sched", replay, || build_vec(cfg, &s, &sc));
+                        ctx.eval();
+                        let Some(got) = got else { continue };
+                        judge(ctx, "builder-source", base, &got, &|| format!("MessageBuilder::from_reader (DataMode::Utf8, cfg {}) over the text {:?} ({}), source pieces split at {:?}", cfg.name, String::from_utf8_lossy(&s), hexs(&s), splits), &replay);
+                    }
+                }
+                ctx.tally("U1.compositions", ncomp);
+            }
+        }
+    }
+
+    // --- U2: long legal texts with ONE illegal spot placed at / around the literal chunk edges ---------
+    let kinds: [(&str, &[u8]); 10] = [
+        ("bare-lf", b"\n"),
+        ("crlf-lf", b"\r\n\n"),
+        ("cr-crlf-lf", b"\r\r\n\n"),
+        ("lone-cr", b"\r"),
+        ("bad-octet", &[0xFF]),
+        ("truncated-char", &[0xE2, 0x82]),
+        ("lone-continuation", &[0xA9]),
+        ("overlong", &[0xC0, 0xAF]),
+        ("surrogate", &[0xED, 0xA0, 0x80]),
+        ("char-then-lf", &[0xC3, 0xA9, b'\n']),
+    ];
+    let sizes: Vec<usize> = if thorough { vec![40, 700, 1400, 2100, 8192 + 300] } else { vec![700, 2100, 8192 + 300] };
+    for (ci, cfg) in cfgs.iter().enumerate().filter(|(_, c)| c.text) {
+        for &n in &sizes {
+            for (ki, (kname, pat)) in kinds.iter().enumerate() {
+                if !ctx.mine() {
+                    continue;
+                }
+                let mut rng = ctx.rng("U2", (ci * 1_000_000 + n * 16 + ki) as u64);
+                let legal = payload(&mut rng, n, true);
+                describe_case(&format!("U2 cfg {} size {n} defect {kname}", cfg.name));
+                let c = cfg.chunk as usize;
+                let mut positions: Vec<usize> = vec![0, 1, c - 7, c - 6, c - 5, 2 * c - 6, 2 * c - 5, 8192, n / 2, n];
+                positions.retain(|p| *p <= n);
+                // keep the insertion on a character boundary and away from the CR / LF of a legal pair
+                let text = std::str::from_utf8(&legal).unwrap_or("");
+                for p in positions.iter_mut() {
+                    while *p < n && !(text.is_char_boundary(*p) && (*p == 0 || legal[*p - 1] != b'\r') && legal[*p] != b'\n') {
+                        *p += 1;
+                    }
+                }
+                positions.sort_unstable();
+                positions.dedup();
+                for p in positions {
+                    let mut m = legal[..p].to_vec();
+                    m.extend_from_slice(pat);
+                    m.extend_from_slice(&legal[p..]);
+                    let m = Arc::new(m);
+                    let ml = m.len();
+                    let Some(r0) = guarded(ctx, "C09/builder-source/sched", || json!({"family": "U2", "cfg": cfg.name, "text": hexs(&m)}), || build_vec(cfg, &m, &Sched::All)) else { continue };
+                    ctx.eval();
+                    ctx.seen("U.r0-class", if r0.err { "refused" } else { "accepted" });
+                    ctx.seen("U2.defects", *kname);
+                    ctx.tally(&format!("U2.r0.{}.{kname}", if r0.err { "refused" } else { "accepted" }), 1);
+                    let around: Vec<usize> = (p.saturating_sub(1)..=p + pat.len() + 1).filter(|o| *o > 0 && *o < ml).collect();
+                    let mut scheds = vec![Sched::Fixed(1), Sched::Fixed(2), Sched::Fixed(3), Sched::Fixed(7), Sched::Fixed(512), Sched::Cycle(vec![1, 511, 512, 513]), Sched::SplitAt(around.clone())];
+                    for o in &around {
+                        scheds.push(Sched::SplitAt(vec![*o]));
+                    }
+                    if p > 0 && p + pat.len() < ml {
+                        scheds.push(Sched::SplitAt(vec![p, p + pat.len()]));
+                    }
+                    scheds.push(Sched::Random(rng.gen(), 5));
+                    scheds.push(Sched::Random(rng.gen(), 700));
+                    if thorough {
+                        scheds.extend([Sched::Fixed(5), Sched::Fixed(511), Sched::Fixed(513), Sched::Random(rng.gen(), 60)]);
+                    }
+                    for sc in &scheds {
+                        let replay = || json!({"family": "U2", "cfg": cfg.name, "defect": kname, "at": p, "text": hexs(&m), "source": sched_json(sc)});
+                        let got = guarded(ctx, "C09/builder-source/sched", replay, || build_vec(cfg, &m, sc));
+                        ctx.eval();
+                        let Some(got) = got else { continue };
+                        ctx.cover(&("U2", cfg.name, n, ki, p, sc.name()));
+                        judge(ctx, "builder-source", &r0, &got, &|| format!("MessageBuilder::from_reader cfg {} over {ml} octets of text with the defect {kname} ({}) inserted at offset {p}, source {} {}", cfg.name, hexs(pat), sc.name(), sched_json(sc)), &replay);
+                    }
+                }
+            }
+        }
+    }
+}
+
+// ==========================================================================================
+// Family X: MIXED consumer schedules on the message reader (every configuration: literal, compressed,
+// signed, SEIPDv1 in both read modes, SEIPDv2; binary and armored), payload sizes around the 8192-octet
+// windows of the reader layers. R0 = (all-at-once source, read_to_end on a fresh message).
+
+fn family_mixed(ctx: &mut Ctx, env: &MsgEnv) {
+    let thorough = !ctx.quick();
+    let cfgs = configs();
+    // 8186 = 8192 minus the 6 octets of the literal header (the window of a layer above the literal packet)
+    let sizes: Vec<usize> = if thorough {
+        vec![0, 1, 100, 700, 4096, 8100, 8180, 8185, 8186, 8187, 8191, 8192, 8193, 8200, 9000, 16378, 16383, 16384, 16385, 16390, 24576, 24581, 70000]
+    } else {
+        vec![0, 1, 700, 8186, 8191, 8192, 8193, 8200, 9000, 16384, 16390, 24581, 70000]
+    };
+    for (ci, cfg) in cfgs.iter().enumerate() {
+        for &n in &sizes {
+            let sub: Vec<bool> = (0..2).map(|_| ctx.mine()).collect();
+            if !sub.iter().any(|m| *m) {
+                continue;
+            }
+            let mut rng = ctx.rng("X", (ci * 1_000_000 + n) as u64);
+            let data = Arc::new(payload(&mut rng, n, cfg.text));
+            describe_case(&format!("X cfg {} size {n}", cfg.name));
+            ctx.seen("X.configs", cfg.name);
+            ctx.seen("X.sizes", n.to_string());
+            let base = json!({"family": "X", "cfg": cfg.name, "size": n, "data": hexs(&data)});
+            for armored in [false, true] {
+                if !sub[armored as usize] {
+                    continue;
+                }
+                let comp = if armored { "reader-armored" } else { "reader" };
+                let emit_kind = if armored { Emit::Armored } else { Emit::Vec };
+                let Some((b0, _, _)) = guarded(ctx, "C09/builder-source/sched", || base.clone(), || run_build(env, cfg, &data, &Sched::All, None, emit_kind, &Sched::All, None)) else { continue };
+                ctx.eval();
+                if b0.err {
+                    ctx.violation("C09/builder-source/r0-wrong", format!("all-at-once build of cfg {} size {n} failed: {}", cfg.name, b0.brief()), base.clone());
+                    continue;
+                }
+                let w = Arc::new(b0.data);
+                let Some(q0) = guarded(ctx, &format!("C09/{comp}/sched"), || base.clone(), || run_read(env, cfg, &w, armored, &Sched::All, &Consume::ToEnd, None).0) else { continue };
+                ctx.eval();
+                if q0.err || q0.data != **data || !q0.meta.contains(expected_verdict(cfg)) {
+                    ctx.violation(format!("C09/{comp}/r0-wrong"), format!("all-at-once read of the cfg {} message ({n} payload bytes): {} (expected the payload and verdict {})", cfg.name, q0.brief(), expected_verdict(cfg)), json!({"cfg": cfg.name, "wire": hexs(&w)}));
+                    continue;
+                }
+                let bounds = if armored { vec![] } else { stream_boundaries(&w) };
+                let mut scheds = vec![Sched::All, Sched::Fixed(4096), Sched::Cycle(vec![8191, 1, 8192, 8193]), Sched::Random(rng.gen(), 700)];
+                if w.len() <= 12000 {
+                    scheds.push(Sched::Fixed(1));
+                }
+                let exact: Vec<usize> = bounds.iter().copied().filter(|b| *b > 0 && *b < w.len()).collect();
+                if !exact.is_empty() {
+                    scheds.push(Sched::SplitAt(exact));
+                }
+                if thorough {
+                    scheds.extend([Sched::Fixed(7), Sched::Fixed(8192), Sched::Random(rng.gen(), 9000)]);
+                }
+                let ms = mixes(8192, cfg.text, thorough);
+                let per = if n > 9000 { ctx.qt(8usize, 16usize) } else { 0 };
+                let rbase = json!({"family": "X", "cfg": cfg.name, "size": n, "armored": armored, "wire": hexs(&w)});
+                if n == 8193 {
+                    ctx.sample(json!({"family": "X", "cfg": cfg.name, "payload_bytes": n, "armored": armored, "wire_bytes": w.len(), "source_schedules": scheds.iter().map(|s| s.name()).collect::<Vec<_>>(), "mixed_consumers": ms.iter().map(|m| m.name()).collect::<Vec<_>>(), "r0": q0.brief()}));
+                }
+                mix_diff(ctx, comp, &format!("cfg {} ({n} payload bytes, {} wire bytes, armored={armored})", cfg.name, w.len()), &q0, &scheds, &ms, per, &rbase, &|sc, c| run_read_any(env, cfg, &w, armored, sc, c, None).0);
+            }
+        }
+    }
 }
 
 fn family_messages(ctx: &mut Ctx, env: &MsgEnv) {
@@ -2472,6 +3325,14 @@ fn family_messages(ctx: &mut Ctx, env: &MsgEnv) {
                 let seeds = [rng.gen::<u64>()];
                 let scheds = [Sched::Fixed(1), Sched::Fixed(7), Sched::Fixed(512), Sched::SplitAt(vec![cut.saturating_sub(1).max(1)]), Sched::Random(seeds[0], 600)];
                 let tcons = [Consume::ToEnd, Consume::Read(1), Consume::Read(4096), Consume::Buf(5), Consume::BufAll, Consume::Mixed(3)];
+                let tmix = [
+                    Mix::new(&[Op::Fill(0)], 0, Fin::ToEnd),
+                    Mix::new(&[Op::Read(1)], 0, Fin::ToEnd),
+                    Mix::new(&[Op::Fill(usize::MAX)], 0, Fin::ToEnd),
+                    Mix::new(&[], 0, Fin::Ops(vec![Op::Read(0), Op::Fill(0), Op::Fill(usize::MAX)])),
+                    Mix::new(&[Op::Read(100)], 8193, Fin::ToEnd),
+                    Mix::new(&[Op::Fill(1)], 0, Fin::ToString),
+                ];
                 for (i, sc) in scheds.iter().enumerate() {
                     for (j, c) in tcons.iter().enumerate() {
                         if ctx.quick() && (i + j + cut) % 3 != 0 {
@@ -2482,6 +3343,22 @@ fn family_messages(ctx: &mut Ctx, env: &MsgEnv) {
                         ctx.eval();
                         let Some(got) = got else { continue };
                         judge(ctx, "reader-truncated", &q0, &got, &|| format!("Message reader over the cfg {} message cut to {cut} of {} bytes, source {}, consumer {}", cfg.name, wire.len(), sc.name(), c.name()), &replay);
+                    }
+                    // the same damaged input under mixed consumer schedules
+                    for (j, m) in tmix.iter().enumerate() {
+                        // read_to_string is a legitimate consumer only if what R0 released is valid UTF-8
+                        if m.fin == Fin::ToString && (!cfg.text || (!q0.err && std::str::from_utf8(&q0.data).is_err())) {
+                            continue;
+                        }
+                        if ctx.quick() && (i + j + cut) % 3 != 1 {
+                            continue;
+                        }
+                        let replay = || json!({"family": "T", "cfg": cfg.name, "wire": hexs(&w), "source": sched_json(sc), "consumer": m.name()});
+                        let got = guarded(ctx, "C09/reader-truncated/mixed", replay, || run_read_any(env, cfg, &w, false, sc, AnyCons::M(m), None).0);
+                        ctx.eval();
+                        let Some(got) = got else { continue };
+                        ctx.seen("mix.reader-truncated", format!("{}+{}", m.pre_class(), m.fin_class()));
+                        judge_mix(ctx, "reader-truncated", &q0, &got, m, &|m2| run_read_any(env, cfg, &w, false, sc, AnyCons::M(m2), None).0, &|| format!("Message reader over the cfg {} message cut to {cut} of {} bytes, source {}, mixed consumer {}", cfg.name, wire.len(), sc.name(), m.name()), &replay);
                     }
                 }
             }
@@ -2602,8 +3479,10 @@ fn family_messages(ctx: &mut Ctx, env: &MsgEnv) {
                 let comp = if armored { "reader-armored" } else { "reader" };
                 let w = if armored { &awire } else { &wire };
                 let bounds = if armored { vec![] } else { stream_boundaries(w) };
-                for (sc, c) in [(Sched::All, Consume::ToEnd), (Sched::Fixed(300), Consume::Read(100)), (Sched::Fixed(4096), Consume::Buf(5))] {
-                    let Some((q0, qlog)) = guarded(ctx, &format!("C09/{comp}/sched"), || base.clone(), || run_read(env, cfg, w, armored, &sc, &c, None)) else { continue };
+                let fmix = Mix::new(&[Op::Fill(0), Op::Read(5)], 0, Fin::ToEnd);
+                let (c_end, c_read, c_buf) = (Consume::ToEnd, Consume::Read(100), Consume::Buf(5));
+                for (sc, c) in [(Sched::All, AnyCons::S(&c_end)), (Sched::Fixed(300), AnyCons::S(&c_read)), (Sched::Fixed(4096), AnyCons::S(&c_buf)), (Sched::Fixed(2000), AnyCons::M(&fmix))] {
+                    let Some((q0, qlog)) = guarded(ctx, &format!("C09/{comp}/sched"), || base.clone(), || run_read_any(env, cfg, w, armored, &sc, c, None)) else { continue };
                     if q0.err || q0.data != **data {
                         // (the R family reports this as a schedule violation with full detail)
                         ctx.violation(format!("C09/{comp}/r0-wrong"), format!("clean read of the cfg {} message ({n} payload bytes, armored={armored}) with source {} consumer {}: {}", cfg.name, sc.name(), c.name(), q0.brief()), base.clone());
@@ -2622,7 +3501,7 @@ fn family_messages(ctx: &mut Ctx, env: &MsgEnv) {
                         for (kind, sticky) in [(FaultKind::Other, false), (FaultKind::Other, true), (FaultKind::Interrupted, false)] {
                             let f = Fault { at_call: k, sticky, kind };
                             let replay = || json!({"family": "F", "cfg": cfg.name, "armored": armored, "wire": hexs(w), "source": sched_json(&sc), "consumer": c.name(), "source_fault": {"call": k, "sticky": sticky, "kind": kind_name(kind), "clean_calls": ncalls}});
-                            let r = guarded(ctx, &fault_prefix(comp, kind), replay, || run_read(env, cfg, w, armored, &sc, &c, Some(f)));
+                            let r = guarded(ctx, &fault_prefix(comp, kind), replay, || run_read_any(env, cfg, w, armored, &sc, c, Some(f)));
                             ctx.eval();
                             let Some((got, log)) = r else { continue };
                             let raised = log.lock().unwrap().faults_raised;
